@@ -166,7 +166,7 @@ class Fw:
         for f in files:
             p = os.path.join(REPO, 'src', f + '.cpp')
             n = len(re.findall(r'^\s*try\s*\{', open(p).read(), re.M))
-            if known.get(f, 0) != n:
+            if n > known.get(f, 0):   # fewer try-blocks cannot invalidate the lowering; a new one has to be reviewed
                 raise FrameworkError('encoding not regenerable: %s.cpp has %d try-blocks, %d were reviewed (fw/try_blocks.json)' % (f, n, known.get(f, 0)))
 
     def build_model(self, name, harness, roots, sources=OBJ_SOURCES, defines=(), no_destroy=True, extra_files=()):
@@ -373,6 +373,9 @@ class Fw:
 
     def reallib(self):
         with self.lock:
+            if self._real is not None and not (os.path.exists(self._real['lib']) and os.path.exists(os.path.join(self._real['dir'], 'gen', 'libcellml', 'exportdefinitions.h'))):
+                self._real = None   # the cache entry was evicted by a concurrent run: build it again
+                self._realbins = {}
             if self._real is None:
                 self.log('building the real library from', REPO)
                 self._real = reallib.build()
@@ -508,7 +511,7 @@ class Fw:
         lab = res['label']
         if res['status'] == 'SUCCESS':
             return True
-        if res['status'] == 'TIMEOUT' and best_effort:
+        if best_effort and (res['status'] == 'TIMEOUT' or (res['status'] == 'ERROR' and 'emory' in res.get('detail', ''))):
             res['kind'] = 'best-effort'
             self.notes.append('best-effort obligation without verdict (outside the claim): ' + lab)
             return False
